@@ -471,9 +471,14 @@ func TestPropConcurrentDisjoint(t *testing.T) {
 		// records one clock second can see: the g operations of a tick plus whatever a flush finds buffered
 		// (bulk: the port-block buffer holds BufSize/10 records; per-allocation: BufSize records when the flush
 		// loop runs, otherwise everything is written by the final flush)
+		// burst: the goroutines run their lists back to back (the whole phase lies within one clock second; this is
+		// what makes calls overlap for real); otherwise every goroutine sleeps one virtual second before each operation
+		burst := rapid.IntRange(0, 4).Draw(rt, "burst") < 3
 		bulk, buf := cfg.Bulk, cfg.BufSize
 		genLogOpts(rt, &cfg, func(int) int {
 			switch {
+			case burst:
+				return total + 1
 			case bulk:
 				return buf/10 + g + 1
 			case cfg.Started:
@@ -483,7 +488,7 @@ func TestPropConcurrentDisjoint(t *testing.T) {
 		})
 		cfg.FlushEvery = 1
 		var r disjointResult
-		synctest.Test(t, func(*testing.T) { r = execDisjoint(dir, cfg, g, lists, anyDealloc) })
+		synctest.Test(t, func(*testing.T) { r = execDisjoint(dir, cfg, g, lists, anyDealloc, burst) })
 		if r.sig != "" {
 			vstat.Fail(rt, r.sig, "%s", r.msg)
 		}
@@ -493,13 +498,18 @@ func TestPropConcurrentDisjoint(t *testing.T) {
 		} else {
 			cls = append(cls, "allocate-only")
 		}
+		if burst {
+			cls = append(cls, "pace:burst")
+		} else {
+			cls = append(cls, "pace:one-tick-per-second")
+		}
 		if r.simultaneous {
 			cls = append(cls, "blocks-held-simultaneously")
 		}
 		if r.sig != "" {
 			cls = append(cls, "kf-hit")
 		}
-		parts := []any{"conc-disjoint", cfg.String()}
+		parts := []any{"conc-disjoint", cfg.String(), burst}
 		for _, l := range lists {
 			parts = append(parts, fmt.Sprint(l))
 		}
@@ -517,7 +527,7 @@ type disjointResult struct {
 }
 
 // execDisjoint runs inside the bubble; the first violation is returned as a value.
-func execDisjoint(dir string, cfg natCfg, g int, lists [][]cOp, anyDealloc bool) (res disjointResult) {
+func execDisjoint(dir string, cfg natCfg, g int, lists [][]cOp, anyDealloc, burst bool) (res disjointResult) {
 	fail := func(sig, f string, a ...any) bool {
 		if res.sig == "" {
 			res.sig, res.msg = sig, fmt.Sprintf(f, a...)
@@ -556,10 +566,12 @@ func execDisjoint(dir string, cfg natCfg, g int, lists [][]cOp, anyDealloc bool)
 				since := map[int]int64{}
 				<-start
 				for _, op := range lists[i] {
-					// everybody wakes at the same virtual instant; seconds 0 mod 5 belong to the flush loop's ticker
-					time.Sleep(time.Second)
-					if !cfg.Prone && cfg.Started && int(time.Since(seqBase)/time.Second)%5 == 0 {
+					if !burst {
+						// everybody wakes at the same virtual instant; seconds 0 mod 5 belong to the flush loop's ticker
 						time.Sleep(time.Second)
+						if !cfg.Prone && cfg.Started && int(time.Since(seqBase)/time.Second)%5 == 0 {
+							time.Sleep(time.Second)
+						}
 					}
 					if op.Alloc {
 						a, err := e.m.AllocateNAT(privIP(op.Sub, false))
